@@ -616,7 +616,7 @@ void campaign(Ctx& ctx)
 	bool const thorough = ctx.opt.tier == "thorough";
 	enumerate(ctx, c02 ? (thorough ? 4 : 3) : (thorough ? 4 : 3), c02);
 	if (ctx.failed) return;
-	int const n = thorough ? 1000000 : 6000;
+	int const n = thorough ? 1000000 : 25000;
 	ctx.rc_campaign("timer programs (small)", gen_case(c02, 12), n, 30, 1);
 	ctx.rc_campaign("timer programs (large)", gen_case(c02, 40), n / 2, 100, 2);
 }
